@@ -66,7 +66,7 @@ def block_guard(ctx):
     ctx.check(P.has(init, "if $n.is_block and not $n.is_anonymous:\n    $a += ['**pageargs']"), "block-callable-pageargs", db.where(init), "named block callables do not accept **pageargs", "render_<block>(context, **pageargs)")
 
 
-@rule("C06.registration", min_instances=7)
+@rule("C06.registration", min_instances=7, props=["C01", "C11"])
 def registration(ctx):
     """def/block registries are written only through _check_name_exists (duplicate involving a block -> CompileException); named blocks inside defs or call tags are rejected"""
     db = ctx.db
